@@ -106,7 +106,9 @@ func (l Layout) Kind() string {
 	return k
 }
 
-func (l Layout) IsContig() bool { return len(l.Steps) == 0 || l.Final == "mat" || l.Final == "phys" }
+func (l Layout) IsContig() bool {
+	return len(l.Steps) == 0 || l.Final == "mat" || l.Final == "phys" || l.Final == "pbdec"
+}
 func (l Layout) IsCM() bool     { return l.Root != "rm" }
 
 // Built is a realised layout.
@@ -433,6 +435,19 @@ func Build(arr Arr, l Layout, mask []bool) (b *Built, err error) {
 	case "clone":
 		t = t.Clone().(*tensor.Dense)
 		b.Detached = true
+	case "pbdec":
+		// what a protobuf round trip delivers: a tensor filled in by a decoder, not by the constructor
+		// (fields that the constructor sets, like the fallback engine, are still unset)
+		enc, err := t.PBEncode()
+		if err != nil {
+			return nil, &LayoutErr{fmt.Sprintf("PBEncode of %v: %v", l, err)}
+		}
+		dec := new(tensor.Dense)
+		if err := dec.PBDecode(enc); err != nil {
+			return nil, &LayoutErr{fmt.Sprintf("PBDecode of %v: %v", l, err)}
+		}
+		t = dec
+		b.Detached = true
 	default:
 		panic("HARNESS: unknown final " + l.Final)
 	}
@@ -713,7 +728,7 @@ func genSliceStep(t *rapid.T, rank int, stepped bool, label string) LStep {
 
 // Layout kinds understood by genLayoutKind.
 var rmLayoutKinds = []string{"contig", "lazyT", "sliced", "stepsliced", "slicedT", "Tsliced", "picked", "pickslice", "materialized"}
-var c06LayoutKinds = []string{"contig", "lazyT", "sliced", "stepsliced", "materialized", "physT", "picked", "pickslice", "clonedview"}
+var c06LayoutKinds = []string{"contig", "lazyT", "sliced", "stepsliced", "materialized", "physT", "picked", "pickslice", "clonedview", "decoded"}
 var cmLayoutKinds = []string{"cmraw", "cmconv", "cmraw+sliced", "cmraw+lazyT", "cmconv+sliced"}
 
 // genLayoutKind draws a recipe of the named kind for an array of the given rank.
@@ -793,6 +808,11 @@ func genLayoutKind(t *rapid.T, kind string, rank int, label string) Layout {
 	case "materialized":
 		l.Steps = []LStep{genSliceStep(t, rank, rapid.Bool().Draw(t, label+"st"), label)}
 		l.Final = "mat"
+	case "decoded":
+		if rapid.Bool().Draw(t, label+"dsl") {
+			l.Steps = []LStep{genSliceStep(t, rank, false, label)}
+		}
+		l.Final = "pbdec"
 	case "clonedview":
 		l.Steps = []LStep{genSliceStep(t, rank, rapid.Bool().Draw(t, label+"st"), label)}
 		l.Final = "clone"
